@@ -16,6 +16,17 @@ def run(check: Check, world_spec, monitor_spec, K: int, H: int, needs: Sequence[
     """explore with bounds 0..K iteratively? -- the budgeted BFS with budget K already contains every run with
     fewer deviations (the default transition is always taken), so one exploration at K covers K'=0..K;
     counterexamples are kept per signature with the fewest deviations."""
+    import os
+
+    only = os.environ.get("VERIF_ONLY_WORLD")
+    if only:
+        from .fsx import _load
+
+        wname = label or _load(world_spec).name
+        if only not in wname:
+            log(f"  [{wname}] skipped (VERIF_ONLY_WORLD={only})")
+            check.notes.append(f"{wname}: skipped by VERIF_ONLY_WORLD (debugging aid; never set by registered commands)")
+            return None
     res = explore(world_spec, monitor_spec, K=K, H=H, workers=ncpu(), seed=seed(), log=log, max_states=max_states)
     name = label or res.world
     summ = res.summary()
